@@ -29,6 +29,9 @@ PROGRAMS = [
     # trailing blanks inside a string literal, a tab, a form feed, a trailing comment
     {"id": "whitespace", "text": 's = """first\n    \n\tthird  \n"""\nif s:\n    t = (1,\n\n         2)   # c\n\x0c\nu = 3\n'},
 ]
+# two sources given the IDENTICAL string are still two sources
+PROGRAMS.append({"id": "same_c_e", "text": "pass\n", "values": {"c": "'pass'", "e": "'pass'", "m": "verifmod_same_c_e"}})
+PROGRAMS.append({"id": "same_c_m", "text": "x = 1\n", "values": {"c": "verifmod_same_c_m", "e": "'x = 1'", "m": "verifmod_same_c_m"}})
 LINE = re.compile(r"^\s*(?:\d+)?\s*(?:>>)?\s*\d+\s+([A-Z_][A-Z_0-9]*)\s*(?:\d+)?\s*(\(.*\))?\s*$")
 
 
@@ -99,6 +102,8 @@ def run(tier: str, rep: Report):
     for v in versions:
         for oi, o in enumerate(opts):
             progs = PROGRAMS if len(o["src"]) == 1 and (tier == "thorough" or oi % 4 == 0) else PROGRAMS[:1]
+            if len(o["src"]) == 2 and not o["flags"]:
+                progs = PROGRAMS[:1] + [p for p in PROGRAMS if p["id"].startswith("same_")]
             for p in progs:
                 jobs.append((v, oi, o, p))
 
@@ -179,6 +184,8 @@ def canon(x):
 
 def source_values(p, wd):
     text = p["text"]
+    if "values" in p:
+        return dict(p["values"], file=str(wd / f"prog_{p['id']}.py"))
     return {
         "file": str(wd / f"prog_{p['id']}.py"),
         "c": text.replace("\\", "\\\\").replace("\n", "\\n") if "\\" not in text else text.replace("\n", "\\n"),
